@@ -540,6 +540,24 @@ fn state_query_case(r: &mut Rng, known_clock_removed: bool, stats: &mut Stats) -
 			}
 		}
 	}
+	// whatever happened (also a resume whose clock was removed), the track can still be resumed
+	t.resume(inst());
+	rig.callback(IBS);
+	rig.callback(IBS);
+	let st = std::panic::catch_unwind(std::panic::AssertUnwindSafe(|| t.state()));
+	match st {
+		Ok(TrackPlaybackState::Playing) => {
+			let b = rig.callback(IBS);
+			if b.iter().all(|x| *x == 0.0) {
+				return Err(format!("track reports Playing after resume but its sound is silent [{}]", hist.join("; ")));
+			}
+		}
+		Ok(s) => return Err(format!("after resume(immediately) and two callbacks the track is {:?}, not Playing: it can no longer be resumed [{}]", s, hist.join("; "))),
+		Err(_) => {
+			let p = crate::monitors::take_panics();
+			return Err(format!("TrackHandle::state() panicked: {} [{}]", p.first().map(|p| p.sig()).unwrap_or_default(), hist.join("; ")));
+		}
+	}
 	Ok(())
 }
 
